@@ -8,10 +8,13 @@
 package verifspec
 
 // Contract clauses (only meaningful inside //kvc:contract functions).
-func Requires(cond bool)                                {}
-func Ensures(label string, cond bool)                   {}
-func Modifies(locations ...any)                         {}
-func ModifiesAll()                                      {}
+func Requires(cond bool)              {}
+func Ensures(label string, cond bool) {}
+func Modifies(locations ...any)       {}
+func ModifiesAll()                    {}
+
+// TypeInvariants: the function's proof relies on the type invariants declared with //kvc:typeinv.
+func TypeInvariants()                                   {}
 func Allocates()                                        {}
 func Effect()                                           {}
 func Monitor(label string, cond bool)                   {}
@@ -178,3 +181,6 @@ func ForallOldMap[K comparable, V any](body func(m map[K]V) bool) bool {
 
 // ForallValue quantifies over every value of type T (no allocation guard). Proof-only.
 func ForallValue[T any](body func(x T) bool) bool { panic("verifspec: proof-only quantifier") }
+
+// YieldSeq: the sequence of values an iterator function yields (proof-only).
+func YieldSeq[T any](it func(yield func(T) bool)) []T { panic("verifspec: proof-only") }
